@@ -54,7 +54,8 @@ type G struct {
 	NoStartEnd       bool // never generate @ start() / @ end()
 }
 
-var LabelKeys = []string{"a", "b", "c"}
+// "Z" sorts before "__name__": label sets are not always led by the metric name.
+var LabelKeys = []string{"a", "b", "c", "Z"}
 var LabelVals = []string{"x", "y", "z"}
 
 func (g *G) pick(ws ...int) int {
@@ -213,7 +214,7 @@ func (g *G) grouping() string {
 	}
 	kw := g.oneOf("by", "without")
 	n := g.R.Intn(4)
-	keys := []string{"a", "b", "c", "__name__", "le", "nope"}
+	keys := []string{"a", "b", "c", "__name__", "le", "nope", "Z"}
 	g.R.Shuffle(len(keys), func(i, j int) { keys[i], keys[j] = keys[j], keys[i] })
 	if n > 3 {
 		n = 3
@@ -222,7 +223,7 @@ func (g *G) grouping() string {
 	// bias towards real labels
 	for i := range pickd {
 		if g.R.Intn(3) != 0 {
-			pickd[i] = g.oneOf("a", "b", "c")
+			pickd[i] = g.oneOf("a", "b", "c", "a", "b", "c", "Z")
 		}
 	}
 	pickd = dedup(pickd)
@@ -260,6 +261,9 @@ func (g *G) kParam(d int) string {
 
 func (g *G) qParam(d int) string {
 	if g.P.Weird && g.R.Intn(3) == 0 {
+		if g.R.Intn(4) == 0 {
+			return "scalar(" + g.Selector() + ")" // NaN at the steps where the vector is not a singleton
+		}
 		return g.weirdNum()
 	}
 	if g.R.Intn(6) == 0 {
@@ -280,7 +284,7 @@ func (g *G) vectorMatching(allowGroup bool) string {
 			gk := g.oneOf("group_left", "group_right")
 			inc := ""
 			if g.R.Intn(2) == 0 {
-				inc = g.oneOf("a", "b", "c", "a,c", "__name__", "le")
+				inc = g.oneOf("a", "b", "c", "a,c", "__name__", "le", "Z", "Z,b")
 			}
 			s += fmt.Sprintf(" %s (%s)", gk, inc)
 		}
